@@ -75,10 +75,8 @@ def answer (line : String) : String :=
 partial def loop (h : IO.FS.Stream) (ans : String → String) : IO Unit := do
   let line ← h.getLine
   if line.isEmpty then return ()
-  let l := if line.back == '\n' then line.dropRight 1 else line
+  let l := if line.back == '\n' then (line.dropEnd 1).toString else line
   IO.println (ans l)
   loop h ans
 
 end TfelVerif.C13.Driver
-
-def main : IO Unit := do TfelVerif.C13.Driver.loop (← IO.getStdin) TfelVerif.C13.Driver.answer
